@@ -30,7 +30,9 @@ Definition probe_args : list (list Z * Z * list Z * list Z * Z * Z) :=
   [ ([2; 2; 0; 1], 2, [1; 1; 0; 1], [1; 1; 0; 0], 1, 1);
     ([3; 1; 2; 0], 3, [2; 1; 1; 0], [1; 0; 1; 0], 2, 1);
     ([5; 4; 1; 3; 0; 2], 6, [4; 4; 0; 3; 0; 1], [1; 0; 1; 0; 0; 1], 5, 1);
-    ([1; 1; 1; 1], 2, [1; 1; 0; 0], [0; 0; 1; 1], 1, 1) ].
+    ([1; 1; 1; 1], 2, [1; 1; 0; 0], [0; 0; 1; 1], 1, 1);
+    ([0; 1; 2; 2], 3, [0; 0; 1; 2], [0; 1; 1; 0], 2, 1);
+    ([0; 1; 2; 4], 4, [0; 0; 2; 3], [0; 1; 0; 1], 3, 1) ].
 
 Definition probes (cf : config) : list bool :=
   map (fun p => let '(nl, nn, ol, ml, on, mn) := p in
